@@ -158,12 +158,25 @@ def run_content(ds, backend, embd, content, u, bid="w", via_replace=False):
     b = ds[bid]
     stored = {}
     ids = []
+    # reads interleaved with the writes that build the content (an empty read first): whatever a
+    # read may remember (counts, row keys, last results) has to be kept right by every later write
+    b.get(-1)
+    b.get_eventcount()
     for n, (s, d) in enumerate(content):
         if via_replace:
             s0, d0 = content[len(content) - 1 - n]
             ids.append(b.insert(emb.ev(s0, d0, {"n": -1})).id)
         else:
             ids.append(b.insert(emb.ev(s, d, {"n": n})).id)
+        if n == 0:
+            b.get(1, emb.t(-1), emb.t(9))
+            b.get_eventcount(emb.t(-1), emb.t(9))
+    if via_replace and content:
+        # ... and a write that is later undone: an extra event, read, then deleted again
+        extra = b.insert(emb.ev(content[0][0], 1, {"n": -2}))
+        b.get_eventcount()
+        b.get(-1)
+        b.delete(extra.id)
     for n, (s, d) in enumerate(content):
         if via_replace:  # all placeholders are in place before the first one is rewritten
             b.replace(ids[n], emb.ev(s, d, {"n": n}))
